@@ -1,7 +1,45 @@
-/- placeholder driver for C02: replaced when the model is built -/
-import AcnModel.Wire
-open Lean Acn.Wire
+/-
+  Driver for C02: a scenario in (request format of `AcnModel/WireSim.lean`), the full observable
+  trajectory of `Sim.run` out (as `drv_C01`), PLUS the specification sums of the C02 theorems
+  evaluated on the model's own final state (`AcnProofs/Lemmas/LedgerExec.lean`, Mathlib-free), so
+  that the model-side equalities are executed on every scenario and not only proved:
+    "ledger": {"evs":[{"session","delta","gain","sum_all","sum_interval"}], "peak_spec", "sum_delivered",
+               "integral", "vacant_nonzero"}
+-/
+import AcnModel.WireSim
+import AcnProofs.Lemmas.LedgerExec
+open Lean Acn Acn.Wire Acn.EventCore Acn.Sim Acn.LedgerX
 
-def handle (_ : Json) : Except String Json := throw "driver for C02 not built yet"
+def zeroF : Float := 0
+
+def ledgerJson (cfg : Sim.Cfg Float) (s : Sim.State Float) : Json :=
+  let t := s.core.iter
+  let n := cfg.stations.length
+  let evs := cfg.evs.map fun e0 =>
+    let k := stationIndex cfg e0.station
+    match evOf s e0.session with
+    | some e =>
+      Json.mkObj [("session", jS e0.session),
+                  ("delta", jF (e.delivered - e0.delivered)),
+                  ("gain", jF (e.batt.charge - e0.batt.charge)),
+                  ("sum_all", jF (sessionEnergyX cfg s.rates s.occLog e0.session t)),
+                  ("sum_interval", jF (intervalEnergyX cfg s.rates k e0.arrival e0.departure t))]
+    | none => Json.mkObj [("session", jS e0.session), ("missing", jB true)]
+  -- cells recorded non-zero although the snapshot shows the station vacant / the period is still to come
+  let bad := (List.range s.rates.width).foldl (fun acc τ =>
+      (List.range n).foldl (fun acc i =>
+        if (τ ≥ t || occAtX s.occLog τ i == none) && !(s.rates.get i τ == zeroF) then acc + 1 else acc) acc) 0
+  let sumDel := s.evs.foldl (fun acc e => acc + e.delivered) zeroF
+  let sumDel0 := cfg.evs.foldl (fun acc e => acc + e.delivered) zeroF
+  Json.mkObj [("evs", Json.arr evs.toArray), ("peak_spec", jF (peakX s.rates n t)),
+              ("sum_delivered", jF (sumDel - sumDel0)), ("integral", jF (integralX cfg s.rates t)),
+              ("vacant_nonzero", jN bad)]
+
+def handle (j : Json) : Except String Json := do
+  let cfg ← parseSimCfg j
+  let sched ← parseSched (← j.getObjVal? "sched")
+  let fuel := fuelFor cfg.core
+  let r := Sim.run cfg sched fuel (Sim.init cfg)
+  pure ((jResult cfg r).setObjVal! "ledger" (ledgerJson cfg r.1))
 
 def main : IO Unit := runDriver handle
